@@ -656,39 +656,48 @@ class FullRunner(Runner):
         return '?'
 
     def dev_line(self, i, d):
+        """one state line per device; every field is read defensively ('?' if the attribute is gone)
+        so that a renamed private field only affects the projections that contain it"""
         k = self.kind_of(d)
-        g = lambda a, dflt=None: getattr(d, a, dflt)  # noqa: E731
         now = self.env.now
-        if k == 'processor':
-            lr = d._last_restore
-            up = d._uptime + ((now - lr) if lr is not None else 0)
-            lu = d._last_use_start
-            use = d._time_in_use + ((now - lu) if lu is not None else 0)
-            down = d._is_shut_down
-            rr = d._reserved_resources
-            resv = '-' if rr is None else '[' + self.req_str(rr._reserved_resources) + ']'
-            wres = d._waiting_for_resources
-        else:
-            up = use = 0
-            down = False
-            resv = '-'
-            wres = False
+
+        def g(a, dflt=None):
+            return getattr(d, a, dflt)
+
+        def safe(f):
+            try:
+                return f()
+            except Exception:
+                return '?'
         handler = isinstance(d, PartHandler)
-        mx = g('_max_produced_parts', INF)
-        buf = g('_buffer', [])
-        return (f'd {i} {k} part={self.pidx(g("_part"))} out={self.pidx(g("_output"))} '
-                f'wds={ival(bool(g("_waiting_for_downstream_space", False)))} '
-                f'since={ticks(g("_waiting_for_part_since")) if handler else "-"} blk={ival(d._block_input)} '
-                f'down={ival(down)} resv={resv} wres={ival(wres)} up={ticks(up)} use={ticks(use)} '
-                f'val={ival(d.value)} vh={len(d.value_history)} prod={ival(g("_produced_parts", 0))} '
-                f'cost={ival(g("_cost_of_produced_parts", 0))} max={ival(mx)} '
-                f'recv={ival(g("_received_parts_count", 0))} rval={ival(g("_value_of_received_parts", 0))} '
-                f'lvl={ival(g("_level", 0))} buf={jn(";", (f"{ticks(t)}:{self.pidx(p)}" for t, p in buf))} '
-                f'inprog={self.pidx(g("_in_progress_batch"))} '
-                f'coll={jn(";", (self.pidx(p) for p in g("collected_parts", [])))} '
-                f'cyc={ticks(g("_cycle_time", 0))} off={ticks(g("_next_cycle_time_offset", 0))} '
-                f'dn={jn(";", (str(self.didx(x)) for x in d._downstream))} '
-                f'ups={jn(";", (str(self.didx(x)) for x in d._upstream))}')
+        if k == 'processor':
+            up = safe(lambda: ticks(d._uptime + ((now - d._last_restore) if d._last_restore is not None else 0)))
+            use = safe(lambda: ticks(d._time_in_use + ((now - d._last_use_start) if d._last_use_start is not None else 0)))
+            down = safe(lambda: ival(d._is_shut_down))
+            resv = safe(lambda: '-' if d._reserved_resources is None else '[' + self.req_str(d._reserved_resources._reserved_resources) + ']')
+            wres = safe(lambda: ival(d._waiting_for_resources))
+        else:
+            up = use = '0'
+            down = '0'
+            resv = '-'
+            wres = '0'
+        fields = [
+            ('part', lambda: self.pidx(g('_part'))), ('out', lambda: self.pidx(g('_output'))),
+            ('wds', lambda: ival(bool(g('_waiting_for_downstream_space', False)))),
+            ('since', lambda: ticks(d._waiting_for_part_since) if handler else '-'),
+            ('blk', lambda: ival(d._block_input)), ('down', lambda: down), ('resv', lambda: resv), ('wres', lambda: wres),
+            ('up', lambda: up), ('use', lambda: use), ('val', lambda: ival(d.value)), ('vh', lambda: str(len(d.value_history))),
+            ('prod', lambda: ival(g('_produced_parts', 0))), ('cost', lambda: ival(g('_cost_of_produced_parts', 0))),
+            ('max', lambda: ival(g('_max_produced_parts', INF))), ('recv', lambda: ival(g('_received_parts_count', 0))),
+            ('rval', lambda: ival(g('_value_of_received_parts', 0))), ('lvl', lambda: ival(g('_level', 0))),
+            ('buf', lambda: jn(';', (f'{ticks(t)}:{self.pidx(p)}' for t, p in g('_buffer', [])))),
+            ('inprog', lambda: self.pidx(g('_in_progress_batch'))),
+            ('coll', lambda: jn(';', (self.pidx(p) for p in g('collected_parts', [])))),
+            ('cyc', lambda: ticks(g('_cycle_time', 0))), ('off', lambda: ticks(g('_next_cycle_time_offset', 0))),
+            ('dn', lambda: jn(';', (str(self.didx(x)) for x in d._downstream))),
+            ('ups', lambda: jn(';', (str(self.didx(x)) for x in d._upstream))),
+        ]
+        return f'd {i} {k} ' + ' '.join(f'{name}={safe(f)}' for name, f in fields)
 
     def live_parts(self):
         acc = []
